@@ -134,6 +134,10 @@ CORPUS = [
     'SELECT * FROM (SELECT count(*), sum(i) FROM #t)',
     'SELECT * FROM (SELECT s, sum(i), count(*) AS n FROM #t GROUP BY s)',
     'SELECT * FROM (SELECT * FROM (SELECT i * 2, s FROM #t))',
+    # ... in the case they were written in, also when two of them differ in nothing else
+    "SELECT * FROM (SELECT s, SUM(i), Count(*), MAX(t) FROM #t GROUP BY s)",
+    "SELECT * FROM (SELECT 'usd', 'USD', s ~ 'A', s ~ 'a', LENGTH(s), length(s) FROM #t)",
+    "SELECT * FROM (SELECT * FROM (SELECT UPPER(s), upper(s), i FROM #t))",
     # DISTINCT and LIMIT outside
     'SELECT DISTINCT a FROM (SELECT s AS a, i FROM #t) LIMIT 2',
     'SELECT DISTINCT a, b FROM (SELECT s AS a, t AS b, i FROM #t ORDER BY i) LIMIT 3',
